@@ -545,7 +545,7 @@ class DcmMetaExtension(Nifti1Extension):
         result._content['global']['const'] = OrderedDict()
         result._content['global']['slices'] = OrderedDict()
 
-        if len(shape) > 3 and shape[3] != 1:
+        if len(shape) == 4 or (len(shape) > 4 and shape[3] != 1):
             result._content['time'] = OrderedDict()
             result._content['time']['samples'] = OrderedDict()
             result._content['time']['slices'] = OrderedDict()
